@@ -38,7 +38,8 @@ def flatten(v):
         if "__uuid__" in v:
             return v["__uuid__"]
         if "__bytes_hex__" in v:
-            return {"__bytes__": v["__bytes_hex__"]}
+            import base64
+            return base64.b64encode(bytes.fromhex(v["__bytes_hex__"])).decode()    # binary inside a JSON body is base64 text
         return {k: flatten(x) for k, x in v.items()}
     if isinstance(v, list):
         return [flatten(x) for x in v]
